@@ -1,4 +1,4 @@
-import SafeNet.Proofs.StoreViews
+import SafeNet.Proofs.StoreHistory
 /-!
 # C02 — a restarted node never serves corrupted records and keeps completed writes
 
@@ -178,6 +178,52 @@ theorem restart_removed_stay_removed (cfg : Cfg) (dist : Nat → Nat) (s : St)
   · simp only [SafeNet.Store.get, restart, lookup, hidx]
   · simp only [contains, restart, hidx, Option.isSome_none]
 
+/-! ## removals by clean-up schedule the file deletion -/
+
+theorem foldl_removeKey_index' (dist : Nat → Nat) (ks : List Nat) (s : St) :
+    (ks.foldl (removeKey dist) s).index = s.index.filter (fun e => !ks.contains e.1) := by
+  induction ks generalizing s with
+  | nil => exact (List.filter_eq_self.mpr (by simp)).symm
+  | cons k ks ih =>
+    rw [List.foldl_cons, ih]
+    simp only [removeKey, erase, List.filter_filter]
+    apply List.filter_congr
+    intro e _
+    simp only [List.contains_cons]
+    cases h1 : (e.1 != k) <;> cases h2 : ks.contains e.1 <;> simp_all [bne]
+
+/-- **Every record the clean-up drops from the index gets its file deleted**: `cleanup_irrelevant_records`
+removes through `RecordStore::remove` (regenerated: `cleanupRemovesThroughRemove`), so for each key that leaves the
+index a delete task is pending afterwards. Once that task has run and no write of the key is pending,
+`restart_removed_stay_removed` applies: the key stays removed across a restart. -/
+theorem cleanup_removal_spawns_delete (cfg : Cfg) (dist : Nat → Nat) (s : St) (k : Nat)
+    (hin : k ∈ keys s.index) (hout : k ∉ keys (cleanup cfg dist s).index) :
+    Gen.Store.cleanupRemovesThroughRemove = true ∧ ∃ j, (j, Task.delete k) ∈ (cleanup cfg dist s).tasks := by
+  refine ⟨by decide, ?_⟩
+  unfold cleanup at hout ⊢
+  split at hout
+  · exact absurd hin hout
+  · rename_i hlen
+    rw [if_neg hlen]
+    split at hout
+    · exact absurd hin hout
+    · rename_i r hr
+      rw [foldl_removeKey_tasks]
+      rw [foldl_removeKey_index'] at hout
+      have hk : k ∈ (sortByFst (s.byDist.filter (fun e => beyond e.1 r))).map (·.2) := by
+        obtain ⟨e, he, rfl⟩ := List.mem_map.mp hin
+        by_cases hc : ((sortByFst (s.byDist.filter (fun e => beyond e.1 r))).map (·.2)).contains e.1 = true
+        · simpa using hc
+        · exfalso
+          apply hout
+          have hc' : ((sortByFst (s.byDist.filter (fun e => beyond e.1 r))).map (·.2)).contains e.1 = false := by
+            cases h : ((sortByFst (s.byDist.filter (fun e => beyond e.1 r))).map (·.2)).contains e.1 with
+            | false => rfl
+            | true => exact absurd h hc
+          exact List.mem_map.mpr ⟨e, List.mem_filter.mpr ⟨he, by rw [hc']; rfl⟩, rfl⟩
+      obtain ⟨j, hj⟩ := mem_delTasks (n := s.nextId) hk
+      exact ⟨j, List.mem_append_right _ hj⟩
+
 /-! ## the theorems depend on the shipped feature set -/
 
 def noEncrypt : Cfg := { Cfg.shipped 4 2 with encrypt := false }
@@ -213,6 +259,7 @@ example :
 #print axioms SafeNet.Props.C02.restart_keeps_completed
 #print axioms SafeNet.Props.C02.write_done_file
 #print axioms SafeNet.Props.C02.restart_removed_stay_removed
+#print axioms SafeNet.Props.C02.cleanup_removal_spawns_delete
 #print axioms SafeNet.Props.C02.restart_no_encrypt_witness
 #print axioms SafeNet.Props.C02.restart_torn_absent_example
 end SafeNet.Props.C02
